@@ -309,6 +309,9 @@ func build(raw json.RawMessage) (reflect.Value, error) {
 		if err := json.Unmarshal(d.V, &items); err != nil {
 			return v, err
 		}
+		if len(items) == 0 {
+			return v, nil // an empty field list: the zero struct (what descriptors written before fields were supported mean)
+		}
 		if len(items) != t.NumField() {
 			return v, fmt.Errorf("struct %s has %d fields, descriptor %d", t, t.NumField(), len(items))
 		}
